@@ -174,7 +174,7 @@ class GenDef:
     def signature(self, name, rty):
         fp = "".join(" (%s : %s)" % (f, FUNC_TYPE[f]) for f in self.funcs)
         pp = " (%s : K)" % " ".join(self.params) if self.params else ""
-        return "def %s%s%s : %s :=" % (name, fp, pp, rty)
+        return "@[gen_def] def %s%s%s : %s :=" % (name, fp, pp, rty)
 
     def _leaf(self, r, ind):
         sp = " " * ind
